@@ -27,6 +27,11 @@ CHECKS = {
         technique="runtime monitor: independent numeral reader re-reads every printed numeral (Numeric::to_string and query replies) and compares with the exact rational",
         text="Boundary families and random rationals x bases 2..36 x all digits modes are printed by the real code and re-read by an independent reader: exact numerals must equal p/q, approximate ones must be truncations within one last-digit unit, approx. markers and stated periods must be consistent.",
         note="Trusts the numeral reader (fraction forms are decimal; any reading accepted in bases >= 15 where 'e' is a digit); digit counts <= 1000."),
+    "C06": dict(
+        category="exploration", design_ref="DESIGN.md §2 C06",
+        technique="runtime monitor over recorded replies: numerals re-read by the independent reader, printed unit names resolved by the name-resolution model, product compared with the exact quantity, from both the structured parts and the rendered token stream",
+        text="Every database unit x magnitudes 1e-30..1e30 x {0.999, 1, 1000/999} x powers 1..3 (thorough: complete), every unit's definition reply, base-unit products around every derived-unit regrouping, conversions with constant factors and compound targets, unit lists and durations: printed numeral x factor x unit must equal the quantity exactly (exact numerals) or within one last-digit unit (approximate / list numerals), and the dimensionality and quantity shown must be those of the result.",
+        note="Unit names are resolved by the Python model that C07 validates against rink; temperature pseudo-units belong to C10; pure-constant targets print no unit and are not generated."),
     "C07": dict(
         category="exploration", design_ref="DESIGN.md §2 C07",
         technique="runtime monitor: exhaustive sweep of prefix+unit[+s] names through the real lookup/canonicalize against an independent model of the exact/prefix/plural rule",
